@@ -516,6 +516,12 @@ func (x *Exec) checkPost(st *State, vals []Val) {
 	}
 	x.cover(st, fmt.Sprintf("return#%d", x.retCount), term.True)
 	for i, e := range x.Spec.Ensures {
+		if e.Name == "assumed" {
+			// `ensures#assumed`: stated for callers, NOT proved here (e.g. "the result is a
+			// function of the arguments" for a deterministic function); listed as an assumption
+			x.note("ASSUMED postcondition of %s (not proved): %s", fnName(x.Fn), e.Text)
+			continue
+		}
 		c := env.evalBool(e.E)
 		x.oblige(st, "post", fmt.Sprintf("%s@return#%d", clauseLabel(e, i), x.retCount), c, token.NoPos)
 	}
